@@ -6,8 +6,10 @@ import (
 	"fmt"
 	"io"
 
+	"golang.org/x/text/language"
 	"seehuhn.de/go/pdf"
 	kit "seehuhn.de/go/pdf/internal/verifkit"
+	"seehuhn.de/go/xmp"
 )
 
 // Versions lists every PDF version the Writer knows.
@@ -69,6 +71,12 @@ type DocConfig struct {
 	PlainBodies   bool // stream bodies avoid "N G obj" look-alikes and are kept unfiltered sometimes
 	ScalarTopOnly bool
 	BigGaps       bool // object numbers with gaps of thousands
+	// EndstreamBodies makes every stream body a long text with lines that start with "endstream".
+	EndstreamBodies bool
+	// WithMetadata adds an XMP metadata stream to the catalog (needs version >= 1.4);
+	// PlaintextMetadata writes it unfiltered and unencrypted.
+	WithMetadata      bool
+	PlaintextMetadata bool
 	// Sink, if set, receives the file instead of an in-memory sink (fault injection).
 	Sink io.Writer
 }
@@ -168,6 +176,7 @@ type Doc struct {
 	Author    string
 	Custom    map[string]string
 	ID        [][]byte // as reported by the writer
+	MetaTitle string   // title in the XMP metadata stream, if one was written
 
 	closeWriter func() error
 }
@@ -206,6 +215,15 @@ func streamBody(r *kit.Rand, plain bool) []byte {
 	case 7:
 		return []byte("x\r\nendstream\r\nendobj\r\n")
 	case 8:
+		if r.Chance(1, 3) {
+			// long enough for an indirect /Length on non-seekable sinks, with lines that
+			// look like the end of the stream
+			b := []byte("a note about PDF syntax\nendstream\nendobj\n")
+			for len(b) < 1100+r.Intn(2000) {
+				b = append(b, "some more text on a line of its own\nendstream is a keyword\r\n"...)
+			}
+			return append(b, 'x')
+		}
 		n := r.Intn(3000)
 		b := r.Bytes(n)
 		if plain {
@@ -307,6 +325,15 @@ func BuildDoc(r *kit.Rand, cfg DocConfig) (*Doc, error) {
 		OwnerPassword: cfg.OwnerPW, UserPermissions: cfg.Perm}
 	if cfg.ID != nil {
 		opt.ID = [][]byte{bytes.Clone(cfg.ID[0]), bytes.Clone(cfg.ID[1])}
+	}
+	if cfg.WithMetadata && cfg.Version >= pdf.V1_4 && (!cfg.PlaintextMetadata || !cfg.Encrypted() || cfg.Version >= pdf.V1_6) {
+		packet := xmp.NewPacket()
+		dc := &xmp.DublinCore{}
+		d.MetaTitle = "XMP title " + string(r.BytesFrom([]byte("abcdefghij"), 8))
+		dc.Title.Set(language.Und, d.MetaTitle)
+		if err := packet.Set(dc); err == nil {
+			opt.DocumentMetadata = &pdf.MetadataStream{Data: packet, Plaintext: cfg.PlaintextMetadata}
+		}
 	}
 	var sink io.Writer
 	var seek *SeekSink
@@ -484,6 +511,20 @@ func BuildDoc(r *kit.Rand, cfg DocConfig) (*Doc, error) {
 				filters, names, unit = AcceptedFilters(r, cfg.Version, 3)
 			}
 			body := streamBody(r, cfg.PlainBodies)
+			if cfg.EndstreamBodies {
+				switch r.Intn(3) {
+				case 0:
+					body = []byte("a note about PDF syntax\nendstream\nendobj\n")
+				case 1:
+					body = []byte("the keyword\nendstream\nmust be preceded by an end-of-line marker.\n")
+				default:
+					body = []byte("\r\nendstream\r\n<< /Not /ADict >>\n")
+				}
+				for len(body) < 1100+r.Intn(1500) {
+					body = append(body, "text on a line of its own\nendstream is a keyword\r\n"...)
+				}
+				body = append(body, 'x')
+			}
 			if unit > 1 {
 				rows := r.Intn(6)
 				body = r.Bytes(rows * unit)
